@@ -8,7 +8,8 @@ use std::{
 };
 
 use aranya_crypto::{
-    Csprng, DeviceId, IdentityKey, KeyStoreExt as _, SigningKey,
+    CipherSuite, Csprng, DeviceId, IdentityKey, KeyStoreExt as _, SigningKey,
+    id::IdExt as _,
     default::{DefaultCipherSuite, DefaultEngine},
     keystore::memstore::MemStore,
 };
@@ -57,6 +58,22 @@ impl Csprng for SimCsprng {
         }
         self.0.set(s);
     }
+}
+
+// ------------------------------------------------------------ what a hashing adversary can do
+
+/// The command id exactly as the verifier derives it, from public data only (aranya-crypto
+/// `Cmd::digest` + `policy::cmd_id`): digest = TupleHash("SignPolicyCommand-v1", suite OIDs,
+/// author signing-key id, name, parent id, payload); id = Id("PolicyCommandId-v1", digest, signature).
+/// No private key is involved, so a transport adversary can recompute it after changing a field.
+pub fn recompute_cmd_id(sign_key_id: &[u8], name: &str, parent_id: &CmdId, payload: &[u8], signature: &[u8]) -> CmdId {
+    use aranya_crypto::dangerous::spideroak_crypto::hash::tuple_hash;
+    let digest = tuple_hash::<<CS as CipherSuite>::Hash, _>(
+        core::iter::once(&b"SignPolicyCommand-v1"[..])
+            .chain(<CS as CipherSuite>::OIDS.into_iter().map(|o| o.as_bytes()))
+            .chain([sign_key_id, name.as_bytes(), parent_id.as_bytes(), payload]),
+    );
+    CmdId::new::<CS>(b"PolicyCommandId-v1", [digest.as_bytes(), signature])
 }
 
 // ------------------------------------------------------------ panics
@@ -240,6 +257,8 @@ pub struct Node {
     /// postcard encodings of the public keys, as the policy's actions take them
     pub ident_pk: Vec<u8>,
     pub sign_pk: Vec<u8>,
+    /// Id of the public signing key (public data: derived from `sign_pk`).
+    pub sign_key_id: Vec<u8>,
     // shadow
     pub has_graph: bool,
     pub registered: bool,
@@ -275,6 +294,7 @@ impl Node {
             device_id,
             ident_pk: postcard::to_allocvec(&ident_pub).expect("serialises"),
             sign_pk: postcard::to_allocvec(&sign_pub).expect("serialises"),
+            sign_key_id: sign_pub.id().unwrap_or_else(|e| vcommon::harness_error(&format!("signing key id: {e}"))).as_bytes().to_vec(),
             has_graph: false,
             registered: false,
             held: BTreeMap::new(),
